@@ -245,8 +245,10 @@ def run_case(case):
     # ---- (c) off-grid marginals of a save-every-step run -------------------------------------------------------------
     strat_es = "filter" if case["strategy"] == "filter" else "fixedinterval"
     cfg_es = configs.build(fact=fact, strategy=strat_es, cal=cal, ts=case["ts"], nu=nu, problem=problem)
-    sol_es = test_util.solve_adaptive_save_every_step(solver=cfg_es["solver"], error=cfg_es["error"], clip_dt=False, control=_control(case))(
+    sol_es = configs.save_every_step(cfg_es["solver"], cfg_es["error"], clip_dt=False, control=_control(case), inner_budget=500, max_steps=2000)(
         cfg_es["prior"], t0, T1, atol=case["tol"], rtol=case["tol"] * case.get("rtol_factor", 1.0), dt0=case["dt0"], eps=EPS)
+    if sol_es is None or not configs.adaptive_reached_end(sol_es, np.asarray(sol_es.t)[-1]):
+        return {"violations": viols, "obs": {**obs, "budget_hits": 1}, "sigs": []}
     grid_es = np.asarray(sol_es.t, float)
     for jx, t in enumerate(B[1:-1], start=1):
         if np.min(np.abs(grid_es - t)) <= 10 * EPS:
